@@ -38,7 +38,7 @@ import (
 )
 
 const pocSlot = 3
-const horizon = 6 // slots of qualities/targets handed to the model
+const horizon = 6  // slots of qualities/targets handed to the model
 const lastSlot = 3 // every scenario is cut off (miner stopped) when the clock enters slot now0+lastSlot
 
 type proofFile struct {
@@ -59,8 +59,8 @@ func keyFor(i int) *pocec.PrivateKey {
 
 // one candidate a mining space offers
 type cand struct {
-	id      int  // position in the offered list
-	key     int  // key index
+	id      int // position in the offered list
+	key     int // key index
 	x, xp   uint64
 	err     bool // the space reports an error with it
 	binding bool // passes the template's binding check
@@ -131,10 +131,14 @@ type chain struct {
 	accept    bool
 }
 
-func (c *chain) BestBlockNode() *blockchain.BlockNode { c.mu.Lock(); defer c.mu.Unlock(); return c.best }
-func (c *chain) BestBlockHash() *wire.Hash            { c.mu.Lock(); defer c.mu.Unlock(); return c.best.Hash }
-func (c *chain) BestBlockHeight() uint64              { c.mu.Lock(); defer c.mu.Unlock(); return c.best.Height }
-func (c *chain) ChainID() *wire.Hash                  { return &wire.Hash{} }
+func (c *chain) BestBlockNode() *blockchain.BlockNode {
+	c.mu.Lock()
+	defer c.mu.Unlock()
+	return c.best
+}
+func (c *chain) BestBlockHash() *wire.Hash { c.mu.Lock(); defer c.mu.Unlock(); return c.best.Hash }
+func (c *chain) BestBlockHeight() uint64   { c.mu.Lock(); defer c.mu.Unlock(); return c.best.Height }
+func (c *chain) ChainID() *wire.Hash       { return &wire.Hash{} }
 func (c *chain) ProcessBlock(b *massutil.Block) (bool, error) {
 	c.mu.Lock()
 	defer c.mu.Unlock()
@@ -416,7 +420,7 @@ func run(sc *scenario, t0 time.Time, now0 uint64) {
 		cbTx := massutil.NewTx(coinbase)
 		pt := &blockchain.PoCTemplate{
 			Height: sc.height, Timestamp: time.Unix(int64(start)*pocSlot+int64(sc.rem), 0), Previous: prev, Challenge: wire.Hash(challenge),
-			GetTarget: targetAt,
+			GetTarget:   targetAt,
 			GetCoinbase: func(p blockchain.Proof, fee massutil.Amount) (*massutil.Tx, error) { return cbTx, nil },
 			PassBinding: func(p blockchain.Proof) bool {
 				w := p.(*engine.WorkSpaceProof)
